@@ -101,7 +101,7 @@ class TcpUpstreamConnectionHandler(ABC):
             except ssl.SSLWantWriteError:   # pragma: no cover
                 logger.info('Upstream SSLWantWriteError, will retry')
                 return False
-            except BrokenPipeError:     # pragma: no cover
+            except (BrokenPipeError, ConnectionResetError):     # pragma: no cover
                 # Upstream stopped receiving.  What it sent before is
                 # still read and handed on until it signals end of stream.
                 logger.debug('BrokenPipeError when flushing to upstream')
